@@ -10,10 +10,20 @@ from . import genjudge
 from .c07 import oid_arcs
 
 
-def gname(kind, i=0):
+# PAD[field] = number of extra characters for that text member (sizes sweep: lengths around the DER length-form boundaries)
+PAD = {}
+
+
+def pad(field):
+    return "x" * PAD.get(field, 0)
+
+
+def gname(kind, i=0, field="adm"):
     if kind is None:
         return None, None
     name = {"mail": "auth%d@adm.example" % i, "dns": "adm%d.example" % i, "url": "http://adm%d.example/x" % i, "ip": "10.9.%d.255" % i}[kind]
+    if kind != "ip":
+        name += pad(field)
     b = [int(x) for x in name.split(".")] if kind == "ip" else list(name.encode())
     return {"type": kind, "name": name}, {"type": kind, "bytes": b}
 
@@ -24,15 +34,15 @@ def naming(mask, i=0):
     if mask & 1:
         y["oid"] = "1.2.276.0.76.%d" % (3 + i); e["hasOid"], e["oid"] = True, oid_arcs(y["oid"])
     if mask & 2:
-        y["url"] = "http://naming%d.example" % i; e["hasUrl"], e["url"] = True, list(y["url"].encode())
+        y["url"] = "http://naming%d.example" % i + pad("nurl"); e["hasUrl"], e["url"] = True, list(y["url"].encode())
     if mask & 4:
-        y["text"] = "Naming Ärzte %d" % i; e["hasText"], e["text"] = True, list(y["text"].encode())
+        y["text"] = "Naming Ärzte %d" % i + pad("ntext"); e["hasText"], e["text"] = True, list(y["text"].encode())
     return y, e
 
 
 def info(mask, nmask, i=0, r=None):
     """mask bits: 1 namingAuthority, 2 professionOids, 4 registrationNumber, 8 addProfessionInfo; items always (1..3)"""
-    items = ["Ärztin/Arzt", "Apotheker", "item %d" % i][: 1 + i % 3]
+    items = ["Ärztin/Arzt" + pad("item"), "Apotheker", "item %d" % i][: 1 + i % 3]
     y = {"professionItems": items}
     e = {"hasNaming": False, "naming": naming(0)[1], "items": [list(s.encode()) for s in items], "hasOids": False, "oids": [],
          "hasReg": False, "reg": [], "hasAdd": False, "add": []}
@@ -42,16 +52,16 @@ def info(mask, nmask, i=0, r=None):
     if mask & 2:
         y["professionOids"] = ["1.2.276.0.76.4.30", "1.2.276.0.76.4.%d" % (31 + i)]; e["hasOids"], e["oids"] = True, [oid_arcs(o) for o in y["professionOids"]]
     if mask & 4:
-        y["registrationNumber"] = "1-2-3-%d" % i; e["hasReg"], e["reg"] = True, list(y["registrationNumber"].encode())
+        y["registrationNumber"] = "1-2-3-%d" % i + pad("reg").replace("x", "7"); e["hasReg"], e["reg"] = True, list(y["registrationNumber"].encode())
     if mask & 8:
-        b = bytes([1, 2, 3, 4, i % 256]); y["addProfessionInfo"] = "!binary:" + b64(b); e["hasAdd"], e["add"] = True, list(b)
+        b = bytes([1, 2, 3, 4, i % 256]) + bytes(PAD.get("add", 0)); y["addProfessionInfo"] = "!binary:" + b64(b); e["hasAdd"], e["add"] = True, list(b)
     return y, e
 
 
 def mk(cid, top_kind, admissions, klass=""):
     """admissions: list of (authority kind, naming mask, [ (info mask, info naming mask) ])"""
     content, exp = {}, {}
-    gy, ge = gname(top_kind, 0)
+    gy, ge = gname(top_kind, 0, "top")
     exp["hasAuthority"] = gy is not None
     exp["authority"] = ge or {"type": "dns", "bytes": []}
     if gy:
@@ -92,6 +102,16 @@ def cases(ctx):
         sel = full
     for (t, a, nm, im) in sel:
         add(t, [(a, nm, [(im, 1 + (nm % 7))])], klass="1x1")
+    # sizes: every text member alone, and all together, stretched across the DER length-form boundaries (127/128, 255/256, 65535/65536)
+    sizes = [100, 120, 127, 128, 200, 250, 253, 256, 300, 700] + ([] if ctx.quick else [4000, 65500, 65536, 70000])
+    for n in sizes:
+        for field in ("top", "adm", "nurl", "ntext", "item", "reg", "add", "all"):
+            PAD.clear()
+            for f in (("top", "adm", "nurl", "ntext", "item", "reg", "add") if field == "all" else (field,)):
+                PAD[f] = n - 20 if field != "all" else n // 3
+            for k in (("url", "mail") if n % 2 else ("dns", "url")):
+                add(k, [(k, 7, [(15, 7)]), (("mail" if k == "url" else "url"), 2, [(12, 4)])], klass="size-%s-%d" % (field, n))
+    PAD.clear()
     # 1..3 x 1..3 trees
     for i in range(60 if ctx.quick else 20000):
         adms = []
